@@ -296,9 +296,20 @@ def plain_head(raw):
     return not s.startswith('~') and s[1:2] != ':' and '\\' not in s and not s.startswith('//')
 
 
+def lex_transpiler(ctx):
+    """the real LexCompiler of the context's environment (lex / flex, else the stand-in harness/stubs/lex); None if there is none"""
+    if not (shutil.which('lex') or shutil.which('flex')):
+        ctx.env.variables['LEX'] = os.path.join(common.VERIF, 'harness', 'stubs', 'lex')
+    try:
+        return ctx.env.builder('lex').transpiler
+    except Exception:
+        return None
+
+
 def stage_w_names(rep, rng, n, rctx):
     from bfg9000.tools.cc.compiler import CcCompiler
     I = impl()
+    lexc = lex_transpiler(rctx)
     calls, res = [], []
     for b in DOTTED + PARISH + SPACED + ['a', 'ab', 'a.b', '.', '..', '', 'a.b.', '.a.', '..a.b', '....c', 'x.\n', 'x.c\n']:
         calls.append(('within.splitext', [b])); res.append(tuple(posixpath.splitext(b)))
@@ -318,6 +329,13 @@ def stage_w_names(rep, rng, n, rctx):
         exp = name[1:].split('/') if exp_root == 2 else (name.split('/') if name else [])
         calls.append(('within.default_name', [[rc, comps]])); res.append(('ok', exp_root, exp))
         rep.case('dn:%d:%s' % (rc, '/'.join(comps)), nontrivial_comps(comps))
+        if lexc is not None:
+            # LexCompiler.default_name: the name of the translated source, likewise
+            name = lexc.default_name(_Obj(path=p), None)
+            exp_root = 2 if name.startswith('/') else 1
+            exp = name[1:].split('/') if exp_root == 2 else (name.split('/') if name else [])
+            calls.append(('within.lex_default_name', [[rc, comps]])); res.append(('ok', exp_root, exp))
+            rep.case('ldn:%d:%s' % (rc, '/'.join(comps)), nontrivial_comps(comps))
     # relname / buildpath at submodule depth 0-3
     for _ in range(n):
         depth = rng.choice([0, 1, 1, 2, 3])
@@ -402,6 +420,7 @@ def stage_w_objects(rep, rng, n, fixed, ctx):
     """The real executable()/static_library()/shared_library()/copy_file() builtins against link_object/copy_output."""
     from bfg9000 import file_types
     calls, res = [], []
+    lexc = lex_transpiler(ctx)
     for _ in range(n):
         depth = rng.choice([0, 0, 1, 2, 3])
         base = [rng.choice(['sub', 'ab', 'deep', 'a b']) for _ in range(depth)]
@@ -441,6 +460,15 @@ def stage_w_objects(rep, rng, n, fixed, ctx):
             o = 'ValueError'
         calls.append(('within.copy_via', [fixed, base, dirraw is not None, dirraw or [], [rc, comps]]))
         res.append(o)
+        if lexc is not None:
+            # generated_source() of a lex source without a name, with and without directory
+            try:
+                o = canon(c['generated_source'](file=file_types.SourceFile(p, 'lex'), **kw).path)
+            except ValueError:
+                o = 'ValueError'
+            calls.append(('within.lex_via', [fixed, base, dirraw is not None, dirraw or [], [rc, comps]]))
+            res.append(o)
+            rep.case('lexsrc:%s|%r:%d:%s' % ('/'.join(base), dirraw, rc, '/'.join(comps)), nontrivial_comps(comps))
     raw = common.model_batch(calls)
     dis, rp, errs = [], 0, 0
     # a ValueError anywhere in one target makes the whole builtin call fail: compare per source only when the
